@@ -18,18 +18,34 @@ import (
 )
 
 // C01 (a) schedule replay. A fresh 3-server cluster per case; server 1 is the
-// receiver. Protocol-message envelopes for two trees it does not know are
+// receiver and hosts the root of both trees (a chain 1-0-2 and a star 1-{0,2}),
+// the messages come from the node on server 0. Protocol-message envelopes for
+// two trees it does not know are
 // injected in their own goroutines; the verif hook points of overlay.go park
 // each goroutine between the critical sections, and the controller advances
 // them in the order the ops dictate. Tree responses and local registrations
 // are injected by the controller, flush goroutines are released one by one.
+// `localstart t` starts a run on tree t on the receiver itself (CreateProtocol,
+// the tree value in hand) — also while the tree is only requested from the
+// peer; the new root instance then sends to its child on server 2, which has
+// never seen the tree and asks the receiver for it (real overlays, real
+// transport): the message must be handed over there.
 // (b) cluster runs without schedule control are in c01cluster.go.
 
 type c01env struct {
 	cl       *fix.Cluster
 	ov       *onet.Overlay
 	trees    [2]*onet.Tree
-	target   [2]*onet.TreeNode
+	target   [2]*onet.TreeNode // the receiver's node (the root)
+	sender   [2]*onet.TreeNode // the node on server 0 the injected messages come from
+	far      [2]*onet.TreeNode // the node on server 2: destination of what a run started on the receiver sends
+	ov2      *onet.Overlay
+	probing  bool        // a started run's message is on its way to server 2: hook points pass
+	probeGot map[int]int // value (>= 2000) -> hand-overs on server 2
+	probeN   int
+	probeFl  [2]int // flush goroutines of server 2 started / finished while probing
+	local    [2]int // runs started on the receiver and not finished, per tree
+	cond     *sync.Cond
 	rounds   [2][2]uuid.UUID
 	ctl      *sched.Ctl
 	mu       sync.Mutex
@@ -58,7 +74,8 @@ func (e *c01env) hook(name string, key interface{}) {
 	switch k := key.(type) {
 	case *onet.ProtocolMsg:
 		m3, ok := k.Msg.(*fix.M3)
-		if !ok {
+		if !ok || m3.V >= 2000 {
+			// 2000 and above: sent by a run started on the receiver, on its way through server 2's overlay
 			return
 		}
 		e.ctl.Reach("m"+strconv.Itoa(m3.V), name)
@@ -67,6 +84,19 @@ func (e *c01env) hook(name string, key interface{}) {
 		if t < 0 {
 			return
 		}
+		e.mu.Lock()
+		if e.probing {
+			// the receiver's own threads and flush goroutines are all parked: this is server 2's overlay
+			if name == "cpm.start" {
+				e.probeFl[0]++
+			} else if name == "cpm.done" {
+				e.probeFl[1]++
+			}
+			e.cond.Broadcast()
+			e.mu.Unlock()
+			return
+		}
+		e.mu.Unlock()
 		if name == "cpm.start" {
 			e.mu.Lock()
 			key := fmt.Sprintf("f%d#%d", t, e.flushN[t])
@@ -103,6 +133,85 @@ func (e *c01env) expectFlush(t, n int) error {
 	return err
 }
 
+// probe: the root instance of the run just started on the receiver sends one message to its node on
+// server 2. Server 2 has not seen the tree: it parks the message and asks the receiver — the sender — for the
+// tree, once; the receiver has to answer (it runs an instance on that tree) and the message has to be handed
+// to the instance of the same run on server 2. Everything on the receiver is parked meanwhile, so the hook
+// points reached now are server 2's and pass. Afterwards server 2 forgets the tree again (its instance is
+// finished, grace period 1 ms) so that the next start finds it as ignorant as the first.
+func (e *c01env) probe(c *h.Ctx, cs *h.Case, t int, pi onet.ProtocolInstance, was string) bool {
+	rec := fix.RecOf(pi.Token())
+	if rec == nil {
+		cs.Impl = append(cs.Impl, "hang")
+		cs.Fail("start-failed", "the started instance has no recorder")
+		return false
+	}
+	e.mu.Lock()
+	e.probing = true
+	e.probeN++
+	v := 2000 + e.probeN
+	e.mu.Unlock()
+	defer func() {
+		e.mu.Lock()
+		e.probing = false
+		e.mu.Unlock()
+	}()
+	if err := rec.Tni.SendTo(e.far[t], &fix.M3{V: v}); err != nil {
+		cs.Impl = append(cs.Impl, "hang")
+		cs.Fail("send-error", fmt.Sprintf("the instance started on the receiver cannot send to its node on server 2: %v", err))
+		return false
+	}
+	wait := func(d time.Duration, ok func() bool) bool {
+		deadline := time.Now().Add(d)
+		stop := make(chan struct{})
+		go func() {
+			select {
+			case <-stop:
+			case <-time.After(d):
+				e.mu.Lock()
+				e.cond.Broadcast()
+				e.mu.Unlock()
+			}
+		}()
+		defer close(stop)
+		e.mu.Lock()
+		defer e.mu.Unlock()
+		for !ok() {
+			if time.Now().After(deadline) {
+				return false
+			}
+			e.cond.Wait()
+		}
+		return true
+	}
+	if !wait(4*time.Second, func() bool { return e.probeGot[v] > 0 }) {
+		cs.Impl = append(cs.Impl, "hang")
+		cs.Fail("lost-at-child", fmt.Sprintf("a run was started on server 1 on tree %d (tree %s there before the start, %s after); the message its root instance sent to the node on server 2 was not handed over within 4 s: server 2 has %d message(s) parked, tree %s (it asks the sender for the tree once)",
+			t, was, e.ov.VerifTreeState(e.trees[t].ID), e.ov2.VerifPendingCount(e.trees[t].ID), e.ov2.VerifTreeState(e.trees[t].ID)))
+		return false
+	}
+	// the flush goroutine of server 2 that handed the message over has ended; then its instance finishes and the tree goes
+	wait(2*time.Second, func() bool { return e.probeFl[0] > 0 && e.probeFl[0] == e.probeFl[1] })
+	far := pi.Token().Clone()
+	far.TreeNodeID = e.far[t].ID
+	if r2 := fix.RecOf(far); r2 != nil {
+		r2.Tni.Done()
+	}
+	for dl := time.Now().Add(3 * time.Second); time.Now().Before(dl) && e.ov2.VerifTreeState(e.trees[t].ID) != "absent"; {
+		time.Sleep(300 * time.Microsecond)
+	}
+	if e.ov2.VerifTreeState(e.trees[t].ID) != "absent" {
+		c.Count("server 2 keeps the tree after a probe")
+	}
+	e.mu.Lock()
+	n := e.probeGot[v]
+	e.mu.Unlock()
+	if n > 1 {
+		cs.Fail("duplicated", fmt.Sprintf("the message a run started on server 1 sent to its node on server 2 was handed over %d times", n))
+	}
+	return true
+}
+
 var fixMu sync.Mutex // fix.Prepare is global: one case at a time
 
 func c01exec(c *h.Ctx, cs *h.Case) {
@@ -124,15 +233,21 @@ func c01exec(c *h.Ctx, cs *h.Case) {
 	}
 	fixMu.Lock()
 	defer fixMu.Unlock()
-	e := &c01env{cl: fix.NewCluster(3, false), ctl: sched.New(), handedTo: map[int]string{}, handedN: map[int]int{}, treeOf: map[int]int{}, wantTok: map[int]string{}}
+	e := &c01env{cl: fix.NewCluster(3, false), ctl: sched.New(), handedTo: map[int]string{}, handedN: map[int]int{}, treeOf: map[int]int{}, wantTok: map[int]string{},
+		probeGot: map[int]int{}}
+	e.cond = sync.NewCond(&e.mu)
 	defer e.cl.Close()
 	e.ov = e.cl.Overlay(1)
 	e.ov.VerifSetTreeGrace(time.Millisecond)
+	e.ov2 = e.cl.Overlay(2)
+	e.ov2.VerifSetTreeGrace(time.Millisecond)
 	e.ctl.Pass["tm.found"] = true
-	t0, n0 := fix.BuildTree(e.cl.Roster, []int{-1, 0}, []int{0, 1})
-	t1, n1 := fix.BuildTree(e.cl.Roster, []int{-1, 0, 0}, []int{0, 1, 2})
+	t0, n0 := fix.BuildTree(e.cl.Roster, []int{-1, 0, 1}, []int{1, 0, 2})
+	t1, n1 := fix.BuildTree(e.cl.Roster, []int{-1, 0, 0}, []int{1, 0, 2})
 	e.trees = [2]*onet.Tree{t0, t1}
-	e.target = [2]*onet.TreeNode{n0[1], n1[1]}
+	e.target = [2]*onet.TreeNode{n0[0], n1[0]}
+	e.sender = [2]*onet.TreeNode{n0[1], n1[1]}
+	e.far = [2]*onet.TreeNode{n0[2], n1[2]}
 	for t := 0; t < 2; t++ {
 		for r := 0; r < 2; r++ {
 			e.rounds[t][r] = uuid.New()
@@ -146,6 +261,12 @@ func c01exec(c *h.Ctx, cs *h.Case) {
 				return
 			}
 			e.mu.Lock()
+			if m3.V >= 2000 {
+				e.probeGot[m3.V]++
+				e.cond.Broadcast()
+				e.mu.Unlock()
+				return
+			}
 			t := e.treeOf[m3.V]
 			e.handed[t] = append(e.handed[t], m3.V)
 			e.handedTo[m3.V] = tok
@@ -183,7 +304,7 @@ func c01exec(c *h.Ctx, cs *h.Case) {
 			e.treeOf[m] = t
 			e.wantTok[m] = fix.TokenKey(token(t, m))
 			e.mu.Unlock()
-			root := e.trees[t].Root
+			root := e.sender[t]
 			to := token(t, m)
 			if m >= 1000 {
 				// a message whose token names no node of the tree: TransmitMsg answers it with an error
@@ -293,6 +414,34 @@ func c01exec(c *h.Ctx, cs *h.Case) {
 				return false
 			}
 			cs.Impl = append(cs.Impl, e.obs(t))
+		case "localstart":
+			// a run is started on the receiver itself with the tree value in hand (a service does that with
+			// CreateProtocol / StartProtocol): the root instance is listed and the tree registered, whatever the
+			// store holds for it — in particular when it is only requested from the peer
+			e.mu.Lock()
+			nf := e.flushN[t]
+			e.mu.Unlock()
+			was := strings.TrimSuffix(e.ov.VerifTreeState(e.trees[t].ID), "+armed")
+			c.Count("localstart tree=" + was)
+			pi, err := e.cl.L.CreateProtocol(fix.ProtoName, e.trees[t])
+			if err != nil {
+				bad("start-failed", err.Error())
+				return false
+			}
+			e.mu.Lock()
+			e.local[t]++
+			e.mu.Unlock()
+			old := e.ctl.Timeout
+			e.ctl.Timeout = 1500 * time.Millisecond
+			if err := e.expectFlush(t, nf); err != nil {
+				// the case goes on: what counts is what becomes of the parked messages and of what the run sends
+				c.Count("no-flush-after-start")
+			}
+			e.ctl.Timeout = old
+			if !e.probe(c, cs, t, pi, was) {
+				return false
+			}
+			cs.Impl = append(cs.Impl, e.obs(t))
 		case "expire":
 			// the tree is removed after its grace period once its instances have finished; enabled
 			// only when nothing of this tree is parked, in flight or waiting to be flushed
@@ -333,6 +482,9 @@ func c01exec(c *h.Ctx, cs *h.Case) {
 			for r := 0; r < 2; r++ {
 				e.rounds[t][r] = uuid.New()
 			}
+			e.mu.Lock()
+			e.local[t] = 0
+			e.mu.Unlock()
 			cs.Impl = append(cs.Impl, e.obs(t))
 		case "flush", "reflush":
 			if tk[1] == "reflush" {
@@ -397,6 +549,18 @@ func c01exec(c *h.Ctx, cs *h.Case) {
 			out := e.sent[t] - e.answered[t]
 			nq := len(e.flushQ[t])
 			e.mu.Unlock()
+			if out > 0 && nq == 0 {
+				// nothing of this tree can move on the receiver any more except by the peer's answer. When the
+				// receiver itself runs an instance on the tree it had the tree in hand: what is parked must not
+				// wait for the peer
+				e.mu.Lock()
+				loc, running := e.local[t], e.running[t]
+				e.mu.Unlock()
+				if n := e.ov.VerifPendingCount(e.trees[t].ID); loc > 0 && running == "" && n > 0 {
+					cs.Fail("stranded-until-answer", fmt.Sprintf("%d message(s) of tree %d stay parked on a server that runs an instance on that tree, until the peer answers the tree request (tree %s)",
+						n, t, e.ov.VerifTreeState(e.trees[t].ID)))
+				}
+			}
 			if out > 0 {
 				op := fmt.Sprintf("c01 respond %d", t)
 				cs.Ops = append(cs.Ops, op)
@@ -513,6 +677,12 @@ func c01gen(c *h.Ctx, yield0 func(*h.Case)) {
 		"c01 thread 0 1001", "c01 thread 0 1001", "c01 thread 0 2", "c01 thread 0 2", "c01 thread 0 2", "c01 respond 0", "c01 flush 0"}})
 	yield(&h.Case{Class: "corpus-round", Ops: []string{"c01 arrive 0 1", "c01 arrive 0 2", "c01 arrive 1 3", "c01 thread 0 1", "c01 thread 0 1", "c01 thread 0 1", "c01 thread 0 1", "c01 thread 0 1",
 		"c01 thread 0 2", "c01 thread 0 2", "c01 thread 0 2", "c01 respond 0", "c01 flush 0", "c01 arrive 0 4"}})
+	// a run is started on the receiver while the tree is requested from the peer: before the request has left, and
+	// after (the peer's answer then finds the tree stored); then on a known tree and on an unknown one
+	yield(&h.Case{Class: "corpus-localstart", Ops: []string{"c01 arrive 1 1", "c01 thread 1 1", "c01 thread 1 1", "c01 thread 1 1", "c01 thread 1 1",
+		"c01 localstart 1", "c01 arrive 1 2", "c01 flush 1", "c01 thread 1 1", "c01 respond 1", "c01 localstart 1", "c01 flush 1", "c01 expire 1", "c01 arrive 1 3"}})
+	yield(&h.Case{Class: "corpus-localstart", Ops: []string{"c01 arrive 0 1", "c01 arrive 0 2", "c01 thread 0 1", "c01 thread 0 1", "c01 thread 0 1", "c01 thread 0 1", "c01 thread 0 1",
+		"c01 thread 0 2", "c01 localstart 0", "c01 thread 0 2", "c01 thread 0 2", "c01 localstart 1", "c01 arrive 1 3"}})
 	for n := 0; n < c01pick(c, 150, 3000, 400); n++ {
 		cs := &h.Case{Class: "random"}
 		m := 0
@@ -540,10 +710,26 @@ func c01gen(c *h.Ctx, yield0 func(*h.Case)) {
 			case x < 16:
 				cs.Ops = append(cs.Ops, fmt.Sprintf("c01 respond %d", r.Intn(2)))
 			case x < 17:
-				if r.Intn(3) == 0 {
+				switch y := r.Intn(6); {
+				case y < 2:
 					cs.Ops = append(cs.Ops, fmt.Sprintf("c01 expire %d", r.Intn(2)))
-				} else {
+				case y < 4:
 					cs.Ops = append(cs.Ops, fmt.Sprintf("c01 localset %d", r.Intn(2)))
+				case y < 5 && m < 8:
+					// a message arrives for a tree, its thread goes as far as marking the tree requested (or further:
+					// the request leaves), then a run is started here on that tree
+					m++
+					t := r.Intn(2)
+					tree[m] = t
+					live = append(live, m)
+					cs.Ops = append(cs.Ops, fmt.Sprintf("c01 arrive %d %d", t, m))
+					for k := 0; k < 4+r.Intn(2); k++ {
+						cs.Ops = append(cs.Ops, fmt.Sprintf("c01 thread %d %d", t, m))
+					}
+					cs.Ops = append(cs.Ops, fmt.Sprintf("c01 localstart %d", t))
+					c.Count("op=localstart after a request")
+				default:
+					cs.Ops = append(cs.Ops, fmt.Sprintf("c01 localstart %d", r.Intn(2)))
 				}
 			default:
 				cs.Ops = append(cs.Ops, fmt.Sprintf("c01 flush %d", r.Intn(2)))
